@@ -57,6 +57,7 @@ def run(ctx):
     ctx.assumptions += ["two-digit years mean 20yy (convention of the code, kept)",
                         "month-name notations with a stand-alone year that reads as hh:mm with mm a multiple of 5 are excluded (property text)"]
     ctx.mc("MC_Denote", "MC_Denote_C05_q.cfg", timeout=1800)
+    common.random_rows_stage(ctx, "C05")
     dates = [(y, m, d) for y in range(1990, 2030) for m in range(1, 13) for d in range(1, dim(y, m) + 1)]
     step = 11 if ctx.quick else 1
     off = rnd.randrange(step)
